@@ -70,6 +70,10 @@ func TestPlan(t *testing.T) {
 		p.Shards = append(p.Shards, sh...)
 	}
 	switch id() {
+	case "C07", "C11", "C15":
+		// the binary leg of the formatter properties: `spok --fmt` on generated files
+		p.Rule = "binary leg: generated spokfiles (random layouts, comments in every position, side-effect-free loading) formatted in place by `spok --fmt` in the sandbox; the file afterwards is parsed in-process and judged by the same projection as the in-process leg (C11: a second --fmt leaves it byte-identical). Non-trivial: the file changed; distinct by source"
+		binShards("^TestFmtBinary$", 8, 40, 16, 600)
 	case "C13":
 		binShards("^TestVars$", 16, 150, 16, 1300)
 	case "C09":
@@ -218,6 +222,12 @@ func TestReplay(t *testing.T) {
 
 func replayOther(t *testing.T, v ev.Violation, raw []byte) *rp.Fail {
 	switch v.Kind {
+	case "fmtbin":
+		var c FmtCase
+		if err := json.Unmarshal(raw, &c); err != nil {
+			t.Fatal(err)
+		}
+		return execFmtBinary(v.Property, nil, newBox(t), c)
 	case "fail":
 		var c FailCase
 		if err := json.Unmarshal(raw, &c); err != nil {
@@ -336,6 +346,18 @@ func execFindBinary(s *ev.Shard, b *sandbox.Box, c FindCase) *rp.Fail {
 		s.NonTrivial("bin" + fmt.Sprint(c.Cfg, c.Child, c.Start, c.Stop))
 	}
 	return nil
+}
+
+func TestFmtBinary(t *testing.T) {
+	s := ev.Open(t, id())
+	b := newBox(t)
+	rp.Check(t, s, "fmtbin", genFmt, func(c FmtCase) *rp.Fail {
+		s.Class("space_binary_fmt")
+		if s.WantSample() {
+			s.Sample(map[string]any{"spokfile_formatted_by_the_binary": c.Src})
+		}
+		return execFmtBinary(id(), s, b, c)
+	})
 }
 
 func TestFail(t *testing.T) {
